@@ -63,6 +63,15 @@ func NewYAMLAccountManager(accountDir string) (*YAMLAccountManager, error) {
 			if err := accountMgr.Update(account, account.Login); err != nil {
 				return nil, fmt.Errorf("migrate account to new access flag format: %v", err)
 			}
+		} else if wantPath := filepath.Join(accountDir, path.Join("/", account.Login)+".yaml"); account.Login != "" && filePath != wantPath {
+			// An update that changes the login writes the new record first and moves the file afterwards.  If the
+			// server was killed in between, the record already carries the new login while the file still has the
+			// old name: finish the move, so that later updates and deletions of the account find its file.
+			if _, err := os.Stat(wantPath); os.IsNotExist(err) {
+				if err := os.Rename(filePath, wantPath); err != nil {
+					return nil, fmt.Errorf("finish account rename: %v", err)
+				}
+			}
 		}
 
 		accountMgr.accounts[account.Login] = account
